@@ -504,3 +504,4 @@ package generic
 //@     invariant diff: diffLen == self.l - originLen
 //@     invariant i: 0 - 1 <= i && i < len(address)
 //@     decreases i + 1
+
